@@ -51,6 +51,7 @@ LWalk(c, i, la, bad) ==
               IN  LWalk(c, i + 1, [la EXCEPT !.acc = r.acc], bad \cup {[i |-> i, key |-> k, par |-> e.par] : k \in r.bad})
          ELSE IF e.k = "q" THEN LWalk(c, i + 1, [la EXCEPT !.acc.trust = @ \/ e.id = "T"], bad)
          ELSE IF e.k = "enter" /\ e.v = "approve" THEN LWalk(c, i + 1, [la EXCEPT !.acc.trust = TRUE], bad)
+         ELSE IF e.k = "enter" /\ e.v = "close" THEN LWalk(c, i + 1, [la EXCEPT !.acc.asked = TRUE], bad)
          ELSE IF e.k = "in" /\ e.v = "data" THEN LWalk(c, i + 1, [la EXCEPT !.acc.inj = Append(@, e.id)], bad)
          ELSE IF e.k = "in" /\ e.v = "acc" THEN LWalk(c, i + 1, [la EXCEPT !.lastAcc = e.id], bad)
          ELSE LWalk(c, i + 1, la, bad)
